@@ -6,7 +6,7 @@ import time
 from .build import VERIF, AnalysisBroken
 
 KNOWN_FILE = os.path.join(VERIF, 'known_findings.json')
-EVIDENCE_DIR = os.path.join(VERIF, 'evidence')
+EVIDENCE_DIR = os.environ.get('QXV_EVIDENCE_DIR', os.path.join(VERIF, 'evidence'))
 
 
 def load_known():
